@@ -109,7 +109,7 @@ Definition kind_belongs (r : rule) (m : msg) : bool :=
         another, e.g. nothing below an unknown field is typed). *)
 Definition violated (full : bool) (S : tsdoc) (D : opdoc) : list rule :=
   if full then filter (fun r => negb (rule_ok S D r)) all_rules
-  else let vs := vis_doc_sites S D in filter (fun r => negb (rule_ok_vis_on S D vs r)) all_rules.
+  else let vs := vis_doc_sites S D in filter (fun r => negb (rule_ok_vis_on S D vs r && rule_ok_roots S D r)) all_rules.
 
 Definition holds (c : case) : bool :=
   schema_wf (c_schema c) &&    (* the guards of the theorems hold: the schema passed check, *)
